@@ -170,6 +170,131 @@ func singletonEnumNames(src schemaSrc) map[string]bool {
 	return out
 }
 
+var (
+	enumClashCache  = map[string]map[string]bool{}
+	notProtoIDChars = regexp.MustCompile(`[^a-zA-Z0-9_]`)
+)
+
+// enumClashNames returns, from goyang's own compilation of the schema, the sanitised member
+// names that occur twice within one enumeration or one identity set, plus UNSET when a member has that
+// name (the trigger region of F48).
+func enumClashNames(src schemaSrc) map[string]bool {
+	key := src.Dir + "|" + strings.Join(src.Roots, "|")
+	if m, ok := enumClashCache[key]; ok {
+		return m
+	}
+	out := map[string]bool{}
+	enumClashCache[key] = out
+	yi, err := loadYang(src.Dir, src.Roots)
+	if err != nil {
+		return out
+	}
+	set := func(names []string) {
+		seen := map[string]bool{}
+		for _, n := range names {
+			u := notProtoIDChars.ReplaceAllLiteralString(n, "_")
+			if seen[u] || u == "UNSET" {
+				out[u] = true
+			}
+			seen[u] = true
+		}
+	}
+	seenT := map[*yang.YangType]bool{}
+	var typ func(t *yang.YangType)
+	typ = func(t *yang.YangType) {
+		if t == nil || seenT[t] {
+			return
+		}
+		seenT[t] = true
+		if t.Enum != nil {
+			set(t.Enum.Names())
+		}
+		if t.IdentityBase != nil {
+			var names []string
+			for _, v := range t.IdentityBase.Values {
+				names = append(names, v.Name)
+			}
+			set(names)
+		}
+		for _, m := range t.Type {
+			typ(m)
+		}
+	}
+	seen := map[*yang.Entry]bool{}
+	var walk func(e *yang.Entry)
+	walk = func(e *yang.Entry) {
+		if seen[e] {
+			return
+		}
+		seen[e] = true
+		typ(e.Type)
+		for _, c := range e.Dir {
+			walk(c)
+		}
+	}
+	for _, r := range yi.roots {
+		walk(r)
+	}
+	return out
+}
+
+var jsonClashCache = map[string]map[string]bool{}
+
+// protoJSONName is protoc's default JSON name of a field name (underscores dropped, next letter upper-cased).
+func protoJSONName(field string) string {
+	var b strings.Builder
+	up := false
+	for _, r := range field {
+		if r == '_' {
+			up = true
+			continue
+		}
+		if up && r >= 'a' && r <= 'z' {
+			r -= 'a' - 'A'
+		}
+		up = false
+		b.WriteRune(r)
+	}
+	return b.String()
+}
+
+// jsonNameClashes returns the default JSON names that two differently named nodes of the schema share
+// (a superset of the trigger region of F49, which needs the two to end up in one message).
+func jsonNameClashes(src schemaSrc) map[string]bool {
+	key := src.Dir + "|" + strings.Join(src.Roots, "|")
+	if m, ok := jsonClashCache[key]; ok {
+		return m
+	}
+	out := map[string]bool{}
+	jsonClashCache[key] = out
+	yi, err := loadYang(src.Dir, src.Roots)
+	if err != nil {
+		return out
+	}
+	first := map[string]string{}
+	seen := map[*yang.Entry]bool{}
+	var walk func(e *yang.Entry)
+	walk = func(e *yang.Entry) {
+		if seen[e] {
+			return
+		}
+		seen[e] = true
+		j := protoJSONName(notProtoIDChars.ReplaceAllLiteralString(e.Name, "_"))
+		if n, ok := first[j]; ok && n != e.Name {
+			out[j] = true
+		} else if !ok {
+			first[j] = e.Name
+		}
+		for _, c := range e.Dir {
+			walk(c)
+		}
+	}
+	for _, r := range yi.roots {
+		walk(r)
+	}
+	return out
+}
+
 func lastComponent(s string) string {
 	if i := strings.LastIndexByte(s, '.'); i >= 0 {
 		return s[i+1:]
@@ -234,11 +359,20 @@ func excused(rec *ev.Rec, src schemaSrc, f protoFlags, po *protoOut, p problem) 
 
 	// F48: enum value names equal after sanitising / equal to the synthetic UNSET
 	case p.Class == "dup-enum-name":
-		return rec.Excuse(fEnumNameDup, true)
+		// trigger: the doubled value name comes from two YANG members of one enumeration / identity set
+		// that are equal after sanitising, or from a member called UNSET
+		dup, hit := qs(0), false
+		for c := range enumClashNames(src) {
+			if dup == c || strings.HasSuffix(dup, "_"+c) {
+				hit = true
+			}
+		}
+		return rec.Excuse(fEnumNameDup, hit)
 
 	// F49: sibling fields with the same default JSON name
 	case p.Class == "link:json-name":
-		return rec.Excuse(fJSONName, true)
+		// trigger: two differently named schema nodes share the default JSON name that the message reports
+		return rec.Excuse(fJSONName, jsonNameClashes(src)[qs(0)])
 
 	// F50: -package_hierarchy, a directory whose package component equals its message name
 	case p.Class == "link:duplicate-symbol" && strings.Contains(p.Msg, "(message) is already defined as package in file"):
